@@ -63,6 +63,10 @@ class Check:
     def ob(self, rule, site, ok, detail, nontrivial=True, witness=None, path=None):
         if rule not in self.rules:
             raise AnalysisBroken("internal: rule %s not declared" % rule)
+        # a site is named by the code it designates, not by the synthetic names the helper inliner gives a helper's locals
+        # (`sub__new_sub_0` is the `sub` of an extracted helper): the identity of a (known) finding survives the extraction
+        import re as _re
+        site = _re.sub(r"__[A-Za-z_][A-Za-z0-9_]*?_\d+\b", "", site)
         o = Ob(rule, site, bool(ok), detail, nontrivial, witness, path, self.config)
         self.obs.append(o)
         if witness:
